@@ -36,8 +36,9 @@ def configs(quick):
         for gamma in (0.0, 1.0, 10.0):
             adaptive = (gamma != 1.0)
             out.append(dict(dev=dev, smooth=smooth, gamma=gamma, u=(5.79 if gamma else 1.0), adaptive=adaptive, screening=(dev == "ring" and gamma == 10.0)))
-    if not quick:
-        out.append(dict(dev="bar", smooth=0, gamma=10.0, u=0.5, adaptive=True, screening=True))
+    # screening with free (unpinned) terminals: the link variables are refreshed at every step
+    out.append(dict(dev="bar", smooth=0, gamma=10.0, u=0.5, adaptive=True, screening=True))
+    out.append(dict(dev="bar_hole", smooth=3, gamma=1.0, u=5.79, adaptive=False, screening=True))
     # long quiet runs ("all steps"): 5 tau with dt_max below and 30 tau with dt_max above the stability limit
     # dt * lambda_max(-Laplacian) / u < 2 of the explicit step (u = 1, gamma = 0: the smallest damping)
     out.append(dict(dev="bar_hole", smooth=3, gamma=0.0, u=1.0, adaptive=True, screening=False, long=True, dt_max=0.01, T=5.0))
